@@ -270,6 +270,14 @@ func (mi *MessageInfo) unmarshalPointerLazy(b []byte, p pointer, groupTag protow
 				case lazyFields == nil || lazyFields[f] == lazyValidateOnly:
 					// Attempt to validate this field and leave it for later lazy unmarshaling.
 					o, valid := mi.skipField(b, f, wtyp, opts)
+					if valid == ValidationValid && !o.initialized && opts.flags&piface.UnmarshalCheckRequired != 0 {
+						// The submessage is (or may be) missing required fields and
+						// the caller wants required fields checked. CheckInitialized
+						// trusts unexpanded lazy fields of a message that was
+						// unmarshaled with required-field checking, so this field
+						// must not be left unexpanded: unmarshal it eagerly.
+						valid = ValidationUnknown
+					}
 					switch valid {
 					case ValidationValid:
 						// Skip over the valid field and continue.
